@@ -17,8 +17,11 @@ FUNCTIONS = ["FlodymArray.cast_values_to", "FlodymArray.sum_values_to", "FlodymA
              "LifetimeModel.cast_any_to_np_array", "DataFrameToFlodymDataConverter._sort_columns", "FlodymArray.to_df", "flodym_array_stack", "FlodymArray.split"]
 ASSUMPTIONS = ["scipy kernels uninterpreted (lifetime-parameter harness)", "DataFrame round trip: cell values pairwise different", "DataFrame round trip: dimensions with string items (value/item confusion is C11's subject)"]
 OUTSIDE = ["more than 4 dimensions", "lengths above 3"]
+VARIANTS = 'letter-headed frames; sums and shares over several dimensions named against the storage order'
 BOUNDS = {"quick": dict(universe="abc (+d for unary ops)", lengths="(2,2,2,2) and (2,3,2,1)", permutations="all (<= 24 per array, all pairs for binary operations on <= 3 dims)"),
           "thorough": dict(universe="abcd", lengths="(2,2,2,2) (2,3,2,1) (3,2,3,2)", permutations="all; binary operations with up to 4 and 3 dims")}
+for _t in BOUNDS.values():
+    _t["variants_beyond_the_base_enumeration"] = VARIANTS
 OPTS = {"quick": dict(shadow_every=30, max_paths=50), "thorough": dict(shadow_every=100, max_paths=50)}
 BINOPS = ["add", "sub", "mul", "div", "min", "max", "pow"]
 UNOPS = ["sum_to", "sum_over", "cast_to", "shares", "cumsum", "read", "split", "neg_abs_sign_scalar"]
